@@ -105,15 +105,35 @@ fn stamp_value(src_meta: &std::fs::Metadata) -> Option<String> {
     // v2: sidecars store low-cardinality string columns DICTIONARY-encoded
     // (see build_sidecar) — the version prefix retires every v1 sidecar so
     // mixed formats can never be served.
+    // v3: the stamp identifies the source file by length, FULL-resolution
+    // mtime and (on Unix) inode + ctime. v2 used length + whole-second mtime,
+    // so a same-length rewrite within one second — or any same-length
+    // rewrite that preserved the mtime (`cp -p`, `rsync -t`) — left the old
+    // sidecar "fresh" and queries answered from the replaced content. ctime
+    // cannot be set by user code, so it also covers a preserved mtime.
+    let mtime = src_meta
+        .modified()
+        .ok()?
+        .duration_since(std::time::UNIX_EPOCH)
+        .ok()?;
+    #[cfg(unix)]
+    let identity = {
+        use std::os::unix::fs::MetadataExt;
+        format!(
+            ":{}:{}.{:09}",
+            src_meta.ino(),
+            src_meta.ctime(),
+            src_meta.ctime_nsec()
+        )
+    };
+    #[cfg(not(unix))]
+    let identity = String::new();
     Some(format!(
-        "v2:{}:{}",
+        "v3:{}:{}.{:09}{}",
         src_meta.len(),
-        src_meta
-            .modified()
-            .ok()?
-            .duration_since(std::time::UNIX_EPOCH)
-            .ok()?
-            .as_secs()
+        mtime.as_secs(),
+        mtime.subsec_nanos(),
+        identity
     ))
 }
 
